@@ -14,6 +14,9 @@ pub struct TirGen {
     /// names available for ExpectValue params (so that args can be supplied)
     pub param_names: Vec<(String, Type)>,
     pub utxo_counter: u32,
+    /// inside the fields of an input query no further query is generated (a query nested in a
+    /// query's own field is not reported by find_queries and not reachable from sensible programs)
+    in_query: bool,
 }
 
 impl TirGen {
@@ -32,6 +35,7 @@ impl TirGen {
                 ("p_custom".into(), Type::Custom("Thing".into())),
             ],
             utxo_counter: 0,
+            in_query: false,
         }
     }
 
@@ -196,6 +200,14 @@ impl TirGen {
     }
 
     pub fn input_query(&mut self, rng: &mut Rng, depth: u32) -> InputQuery {
+        let was = self.in_query;
+        self.in_query = true;
+        let q = self.input_query_inner(rng, depth);
+        self.in_query = was;
+        q
+    }
+
+    fn input_query_inner(&mut self, rng: &mut Rng, depth: u32) -> InputQuery {
         InputQuery {
             address: match rng.below(4) {
                 0 => Expression::None,
@@ -225,7 +237,7 @@ impl TirGen {
                 Param::ExpectValue(n, t)
             }
             3 => Param::ExpectValue(self.string(rng), self.ty(rng)),
-            4 => {
+            4 if !self.in_query => {
                 // one query per name: `find_queries` keeps one entry per name and which one survives
                 // would depend on hash order
                 self.utxo_counter += 1;
